@@ -123,6 +123,56 @@ def shard_pm1_directed(seed):
     return sh
 
 
+def shard_pm1_zero_tail(seed, n):
+    """'A -pm1- stream that ends before the declared length is continued as if followed by zero bits': for a valid stream S,
+    decoding S with a declared length far beyond what S denotes must give the same bytes as decoding S followed by explicit
+    zero bytes (enough of them that the input never runs out), for extensions from 1 byte to 20 000 bytes.  Also S with its own
+    trailing zero bytes stripped must still give what S denotes."""
+    sh = core.Shard()
+    rnd = random.Random(seed)
+    cases, groups = [], []
+    for i in range(n):
+        tree = rnd.randrange(32)
+        stream, exp = pmarc.pm1_gen_and_serialise(rnd, tree, rnd.choice([30, 70, 330, 1100]), set())
+        for extra in (1, 9, 40, 200, 3000, 20000)[i % 2::2] + (7,):
+            decl = len(exp) + extra
+            a = dech.Case('-pm1-', stream, decl, meta={'tag': 'zero-tail-implicit', 'features': []})
+            b = dech.Case('-pm1-', stream + bytes(3 * extra + 64), decl, meta={'tag': 'zero-tail-explicit', 'features': []})
+            cases += [a, b]
+            groups.append((a, b, exp, extra))
+        stripped = stream.rstrip(b'\0')
+        if len(stripped) < len(stream):
+            c = dech.Case('-pm1-', stripped, len(exp), meta={'tag': 'trailing-zero-bytes-stripped', 'features': []})
+            cases.append(c)
+            groups.append((c, None, exp, 0))
+            sh.count('pm1_streams_with_trailing_zero_bytes_stripped')
+
+    def on_crash(case, cls, key, err):
+        sh.violation('C04-crash:' + key, 'decoding a -pm1- stream past its end ended in %s: %s' % (cls, err[-1000:]), case.stream)
+    res = dech.run_batch(_EXE, cases, sh, label='c04z', on_crash=on_crash)
+    for a, b, exp, extra in groups:
+        ra = res.get(a.id)
+        rb = res.get(b.id) if b is not None else None
+        if ra is None or (b is not None and rb is None):
+            continue
+        sh.evaluated(a.stream + repr((a.declared, a.meta['tag'])).encode(), nontrivial=True)
+        sh.hist('pm1_zero_continuation_bytes', extra)
+        if b is None:
+            if ra.out != exp:
+                sh.violation('C04-mismatch:-pm1-:trailing-zero-bytes-stripped', '-pm1- stream with its trailing zero bytes removed decoded to %d bytes, the full stream '
+                             'denotes %d' % (len(ra.out), len(exp)), a.stream)
+            continue
+        if ra.out[:len(exp)] != exp or rb.out[:len(exp)] != exp:
+            sh.violation('C04-mismatch:-pm1-:zero-tail-prefix', 'the bytes the stream denotes are not the first %d bytes decoded' % len(exp), a.stream)
+        elif ra.out != rb.out:
+            k = next((i for i in range(min(len(ra.out), len(rb.out))) if ra.out[i] != rb.out[i]), min(len(ra.out), len(rb.out)))
+            sh.violation('C04-zero-continuation', '-pm1- stream of %d bytes, declared length %d (+%d beyond what it denotes): %d bytes when the input simply ends, '
+                         '%d bytes when followed by explicit zero bytes; first difference at %d' % (len(a.stream), a.declared, extra, len(ra.out), len(rb.out), k), a.stream)
+        elif len(rb.out) != a.declared:
+            sh.violation('C04-zero-continuation-short', '-pm1- followed by explicit zero bytes produced %d of the %d declared bytes' % (len(rb.out), a.declared), b.stream)
+    return sh
+
+
 def _dispatch(fn, a):
     return fn(*a)
 
@@ -143,6 +193,8 @@ def run(ctx):
         for i in range(32):
             args.append((shard_pm1, (ctx.seed * 17 + i, 2500, [i])))
     args.append((shard_pm1_directed, (ctx.seed,)))
+    for i in range(4 if ctx.tier == 'quick' else 32):
+        args.append((shard_pm1_zero_tail, (ctx.seed * 23 + i, 40 if ctx.tier == 'quick' else 400)))
     core.run_shards(ctx, _dispatch, args)
     miss = [f for f in REQ_PM2 if f not in ctx.cov.get('pm2_features', {})] + \
            [f for f in REQ_PM1 if f not in ctx.cov.get('pm1_features', {})]
@@ -153,7 +205,7 @@ def run(ctx):
         raise core.HarnessFailure('workload did not reach required stream shapes: %s' % miss)
     ctx.cov['rule'] = ('streams from vlib/lhamodel/pmarc.py: pm2 with random complete code/offset tables at every stage and tables '
                        're-read in mid-copy; pm1 over all 32 start trees with copies steered to every position threshold; distinct by '
-                       'stream bytes; non-trivial = contains a copy command (pm2: and more than 1 KiB output so a re-read occurred)')
+                       'stream bytes; pm1 zero continuation: the input simply ending vs. explicit zero bytes, 1 to 20 000 bytes past what the stream denotes; non-trivial = contains a copy command (pm2: and more than 1 KiB output so a re-read occurred)')
     ctx.assumptions += ['-pm2- copies that reach back before the first output byte are expected to read spaces (the LHA-family convention; the statement does not spell out the initial window); -pm1- copies are generated only from bytes already produced',
                         'no real -pm1- encoder exists; the model is a reading of the format']
 
